@@ -140,9 +140,10 @@ def report(chk, recs, verdicts, rnd=None, minimize=True):
                             'verdict': mf})
 
 
-def run_space(chk, trees, rnd, nenv, grid, label, shared=False):
+def run_space(chk, trees, rnd, nenv, grid, label, shared=False, keep_unchanged=0.05):
     outs = irlib.pmap(_simp_shared if shared else _simp, trees)
-    recs, stats = build_records(trees, outs, rnd, nenv, grid, start_id=chk.cov['evaluations'])
+    start = chk.cov['evaluations']
+    recs, stats = build_records(trees, outs, rnd, nenv, grid, start_id=start, keep_unchanged=keep_unchanged)
     chk.cov['evaluations'] += len(trees)
     chk.cov['distinct_nontrivial'] += stats['changed'] + stats['timeout'] + stats['exc']
     rnd.shuffle(recs)
@@ -154,6 +155,8 @@ def run_space(chk, trees, rnd, nenv, grid, label, shared=False):
         chk.sample({'space': label, 'input': EJ.show(r['e']), 'simplified': EJ.show(r['r']) if r['st'] == 'ok' else r['st'],
                     'valuations': len(r['envs']) + len(r['grid']) ** 2})
     report(chk, recs, verdicts, rnd)
+    bad = set(v['id'] for v in verdicts)
+    return [(t, o) for k, (t, o) in enumerate(zip(trees, outs)) if (start + k) not in bad]
 
 
 def run(tier, chk):
@@ -190,8 +193,10 @@ def run(tier, chk):
     tf = loose_compose_trees(rnd, 2500 if quick else 30000)
     run_space(chk, tf, rnd, 8 if quick else 16, [], 'f:concatenations with constants wider than their slot')
     src = loose_compose_trees(rnd, 1500 if quick else 15000) + random_trees(rnd, 1500 if quick else 15000)
-    tg = second_pass_trees(rnd, src, irlib.pmap(_simp, src))
-    run_space(chk, tg, rnd, 8 if quick else 16, [], 'g:second pass (simplify, substitute a constant for an identifier, simplify)')
+    # the first pass is judged like every other space; only outputs it accepts (well typed, same value) feed the second pass
+    good = run_space(chk, src, rnd, 8 if quick else 16, [], 'g1:first pass of the two-pass inputs', keep_unchanged=1.0)
+    tg = second_pass_trees(rnd, [t for t, o in good], [o for t, o in good])
+    run_space(chk, tg, rnd, 8 if quick else 16, [], 'g2:second pass (simplify, substitute a constant for an identifier, simplify)')
     rule_conformance(chk, [t for t in ta if t['k'] == 'op'] if not quick else [t for t in ta if t['k'] == 'op' and rnd.random() < 0.5], rnd)
     chk.cov['rule'] = ('trees = reachable one-element stacks of IRGen.tla (typed stack machine) + seeded random deeper trees; '
                        'non-trivial = trees whose simplification differs structurally from the input (or did not terminate)')
